@@ -434,6 +434,20 @@ REPS = [
 ]
 
 
+REPS_MORE = [
+    {"exc": "stall"},
+    {"exc": "protocol"},
+    {"status": 200, "ctype": "sse", "body": "resp", "enc": "typed-event-without-data/no-event-field/data-no-space/crlf"},
+    {"status": 200, "ctype": "sse", "body": "batch", "enc": "comment-block/id-retry-fields/multi-data/lf"},
+    {"status": 200, "ctype": "sse", "body": "empty"},
+    {"status": 202, "ctype": "text", "body": "nonjson"},
+    {"status": 200, "ctype": "json", "body": "batch"},
+    {"status": 204, "ctype": "absent", "body": "empty"},
+    {"status": 302, "ctype": "absent", "body": "empty", "noloc": True},
+    {"status": 200, "ctype": "json", "body": "nonutf8"},
+]
+
+
 def configs_for(tier: str):
     parts = {}
     g = []
@@ -444,11 +458,11 @@ def configs_for(tier: str):
     parts["single-behaviour-then-ok"] = g
     g = []
     maxlen = 3 if tier == "quick" else 4
+    reps = REPS + REPS_MORE
     for L in range(2, maxlen + 1):
-        for combo in itertools.product(range(len(REPS)), repeat=L):
+        for combo in itertools.product(range(len(reps)), repeat=L):
             kinds = ["id-a", "id-7", "note", "id-a"]
-            g.append({"steps": [{"b": REPS[c], "req": kinds[i % 4] if REPS[c].get("body") != "notifs+resp" or True else "id-a",
-                                 "session": None} for i, c in enumerate(combo)]})
+            g.append({"steps": [{"b": reps[c], "req": kinds[i % 4], "session": None} for i, c in enumerate(combo)]})
     parts[f"sequences-len<={maxlen}"] = g
     g = []
     sess_alpha = ["S1", "S2", "none", "4xx", "exc"]
@@ -482,7 +496,7 @@ def run(tier: str, only=None) -> core.Result:
         "json/event-stream/text/absent x body response/error/batch array/notifications+response/wrong id/empty/truncated/"
         "non-JSON/non-UTF-8 x 8 SSE encodings; 204; 301 followed; 302 without Location; 400/401/404/500/503 x 3 bodies) x "
         "request kinds {string id, id 0, integer id, notification} x session header issued or not, each followed by a plain "
-        "request; all sequences of <=3 (thorough 4) over 12 representative behaviours; all session sequences of <=4 over "
+        "request; all sequences of <=3 (thorough 4) over 22 representative behaviours; all session sequences of <=4 over "
         "{issue S1, issue S2, no header, 4xx, exception}; distinct = distinct observation digests"
     )
     res.assumptions = [
